@@ -11,11 +11,15 @@ INFO = {
                    "be the exact reference image, nothing rejected reaches the memory backend; (b) a valid serial frame of "
                    "every type built by the reference encoder and damaged by every 1-bit error, every 2-bit error inside "
                    "the protected fields, every burst of 2..16 bits, every truncation and every extension by 1..3 arbitrary "
-                   "octets: classified as one of the four faults, never executed, never acknowledged.",
+                   "octets: classified as one of the four faults, never executed, never acknowledged; "
+                   "(c) c07_txerr_*: case (a) with a transmitter that refuses every frame (the C09 harness in "
+                   "MODE_TXERR): a frame failing the independent reading is not executed although its error report "
+                   "could not be sent.",
     "bounds": {"quick": {"LMAX": 20, "payload words": 2, "block": "sizeof(RPFrame)+32"},
                "thorough": {"LMAX": 24, "payload words": 4, "block": "sizeof(RPFrame)+40"}},
     "outside_bounds": ["frames longer than LMAX", "error patterns other than the five kinds", "damaged SLIP streams "
-                       "(deframer resynchronisation is C12)", "sink errors while replying"],
+                       "(deframer resynchronisation is C12)",
+                       "sink error schedules other than 'every transmission refused'"],
     "stubs": ["framing layer replaced by its contract (see harness/regp/regp_common.h): deframers deliver octet by "
               "octet via sink_put_octet; framers record the chunk list", "allocator: one static block of exact size with "
               "arbitrary initial contents", "memory backend: logs calls, asserts buffer extent, answers a symbolic verdict",
@@ -52,6 +56,19 @@ def instances(tier):
     out.append(mk("c07_crc_contract_words", "C16/c16.c", ["src/crc-16-arc.c"], {"MODE_WORDS": None, "LEN": 4},
                   unwind={"ufw_crc16_arc": 10, "ufw_crc16_arc_u16": 6, "ref_step": 9, "ref_crc": 10, "harness": 6},
                   default_unwind=10, no_models=True))
+    # "never executed, never acknowledged" must also hold when the transmitter refuses the error report (seed
+    # C07-G: verdict recorded only after the meta message went out): the C09 harness in transmitter-failure mode,
+    # block large enough for every frame of the bound, so every frame is classified by the independent reading
+    for tcp in (0, 1):
+        k = lmax + 4
+        UWT = rc.unwind(lmax, k, 2)
+        UWT["header_ok"] = lmax + 2
+        d = {"LMAX": lmax, "PW": 2, "KEXTRA": k, "MODE_TXERR": None, "ALLOC_FAILS": 0}
+        if tcp:
+            d["TCP"] = None
+        out.append(mk("c07_txerr_%s" % ("tcp" if tcp else "serial"), "C09/c09.c", rc.UNITS, d, unwind=UWT,
+                      default_unwind=lmax + 2, encoded_units=rc.ENC, fp_removal=True, replay_units=rc.REPLAY_UNITS,
+                      object_bits=12, timeout=3000, mem_gb=10))
     if tier == "quick":
         out.append(mk("c07_flip2", "C07/c07.c", rc.UNITS, dict(D, MODE_FLIP2=None), unwind=UW,
                       default_unwind=lmax + 2, encoded_units=rc.ENC, fp_removal=True, replay_units=rc.REPLAY_UNITS, object_bits=12, timeout=3000))
